@@ -32,9 +32,9 @@ CHECKS = {
    text="Single-bit flips at generated (record, byte, bit) coordinates of every handshake/CCS record payload and per-record drop/duplicate/swap/truncate/extend/replay/reflect faults and crafted injected records (content types 22/23/24/0/255, empty or short payloads, other versions), for 3 protocols x 2 auth modes x 4 entropy streams. Oracle: never both endpoints complete; a stray record that can only arrive after the receiver finished its handshake must be rejected at the next read. The quick tier samples the fault space; it is enumerated only as far as the thorough budget reaches.",
    note="Trusted: the proxy and the deterministic replay (scripted entropy, frozen clock). Quiescence time-outs can only move a run towards 'not completed'.",
    design="4/C10"),
- "C09": dict(level="fault_enumeration", technique="enumerated credential-defect matrix instantiated with generated material; each cell is a full handshake between real library endpoints (the defective peer doctored after tls_init where setters refuse), with a control run per cell",
-   text="3 protocols x verifying role x 22 credential defects x chain depth x instance; the verifying endpoint must not report a completed handshake, and the control cell must complete. Quick tier samples cells through Hypothesis, thorough covers each cell several times.",
-   note="Trusted: Python PKI builder; frozen clock. The defective peer is the library itself with doctored TLS_CONNECT fields (sign_key, kenc_key, client_certs_len).",
+ "C09": dict(level="fault_enumeration", technique="enumerated credential-defect matrix instantiated with generated material (full handshakes between real library endpoints, the defective peer doctored after tls_init where setters refuse, a control run per cell) plus model-based adversarial peers: pure-Python scripted TLS 1.3 / TLS 1.2 / TLCP endpoints that deviate from the protocol state machine while keeping key schedule, record protection and Finished consistent with the transcript they really sent",
+   text="(matrix) 125 cells = protocol x verifying role x 27 credential defects, x chain depth x instance; (scripted13) 27 dishonest behaviours x both library roles: CertificateVerify by a wrong key, with nine foreign SignatureScheme codes, garbage / empty / foreign signatures, wrong context string, transcript or signer ID, omitted, before the Certificate, twice; Certificate omitted / empty / repeated; untrusted chain; (scripted12) 83 cells for TLS 1.2 and TLCP: ServerKeyExchange / CertificateVerify omitted, by a wrong key, over other randoms / parameters / IDs, TLCP encryption certificate of another party or untrusted, messages re-ordered or repeated, early ChangeCipherSpec / Finished. The library endpoint must never report a completed handshake; every case first runs the honest script, which must complete with data in both directions. Quick tier samples cells through Hypothesis (about 9 600 handshakes), thorough covers each cell many times.",
+   note="Trusted: Python PKI builder, vlib/peer12.py / peer13.py (validated by interoperating with the library in both roles), frozen clock. In the matrix the defective peer is the library itself with doctored TLS_CONNECT fields. Only 'must not complete' is asserted, never which alert is sent; a stalled endpoint counts as not completed.",
    design="4/C09"),
  "C11": dict(level="exploration", technique="property-based testing (Hypothesis): round trip, differential interoperability with a Python record-layer model in both directions, generated edit neighbourhood that must be rejected, exact-size output buffers under ASan, and record duplication/swap/drop/replay on live connections through the proxy",
    text="Generated keys/sequence numbers/types/payload lengths 0..16384/padding for SM4-CBC+HMAC-SM3 and TLS 1.3 SM4-GCM records; each protected record gets a generated neighbourhood (bit flips of body and authenticated header fields, length changes, truncation/extension, other sequence numbers, all-padding plaintexts) that must be rejected; live connections of all three protocols must only ever accept a prefix of what was sent, also when a record is replayed 255/256/257/512 records later, and when both peers' counters are advanced consistently to just below 2^k (k = 8..56): the records crossing 2^k arrive and the record sent 2^k earlier is refused. Sampled neighbourhood in quick, larger in thorough; not exhaustive.",
